@@ -409,6 +409,28 @@ fn oracle_file(spec: &str, queries: &str, data: &[u8], ann: &str) -> V {
         return Err("C05: e_phoff != 0 but no program header table".into());
     }
 
+    // C05: the entry-size check, stated directly — the section each targeted accessor selects (the first of its type)
+    // must carry the class's entry size, or the accessor fails, whatever else the file contains (a PT_DYNAMIC segment,
+    // a second section of the same type, …)
+    if let Some(shdrs) = f.section_headers() {
+        let (symsz, dynsz) = match class { Class::ELF32 => (16u64, 8u64), Class::ELF64 => (24, 16) };
+        if let Some(sh) = shdrs.iter().find(|s| s.sh_type == abi::SHT_SYMTAB) {
+            if sh.sh_entsize != symsz && f.symbol_table().is_ok() {
+                return Err(format!("C05: symbol_table() accepts a SHT_SYMTAB section whose sh_entsize is {} (entry size {})", sh.sh_entsize, symsz));
+            }
+        }
+        if let Some(sh) = shdrs.iter().find(|s| s.sh_type == abi::SHT_DYNSYM) {
+            if sh.sh_entsize != symsz && f.dynamic_symbol_table().is_ok() {
+                return Err(format!("C05: dynamic_symbol_table() accepts a SHT_DYNSYM section whose sh_entsize is {} (entry size {})", sh.sh_entsize, symsz));
+            }
+        }
+        if let Some(sh) = shdrs.iter().find(|s| s.sh_type == abi::SHT_DYNAMIC) {
+            if sh.sh_entsize != dynsz && f.dynamic().is_ok() {
+                return Err(format!("C05: dynamic() accepts a SHT_DYNAMIC section whose sh_entsize is {} (entry size {})", sh.sh_entsize, dynsz));
+            }
+        }
+    }
+
     // C03: returned data is the exact header-designated range
     if let Some(shdrs) = f.section_headers() {
         for (i, sh) in shdrs.iter().enumerate().take(40) {
